@@ -706,6 +706,27 @@ def replay(v):
     return bad, "interval_step(type %d) DB lhs=%r rhs=%r (X=%s Y=%s interval=%s F=%r T=%r)" % (st, lhs, rhs, G, Y, iv, F, T)
 
 
+def alt_models(v, rnd):
+    """concrete points consistent with the harness assumptions (used only to confirm a solver `sat`)"""
+    m = v.get("model") or {}
+    for _ in range(6):
+        m2 = {}
+        for k, val in m.items():
+            if k.startswith("pow!") or k.startswith("expc!"):
+                continue
+            if k in ("T", "Ti"):
+                m2[k] = rnd.choice([1.0, 0.75, 0.5])
+            elif k == "Tj":
+                m2[k] = rnd.choice([0.125, 0.25, 0.375])
+            elif k == "F":
+                m2[k] = rnd.choice([0.125, 0.25, 0.5, 0.75])
+            elif k[0] in "LP":
+                m2[k] = rnd.choice([0.125, 0.25, 0.5, 1.0, 2.0, 3.0, 5.0])
+            else:
+                m2[k] = val
+        yield m2
+
+
 def _replay_swap(v):
     import math
     from mchap.assemble import tempering as rt
